@@ -346,6 +346,7 @@ def _judge_scatter(ctx, rec):
                             "y_selected": y, "got": got, "reference": want}),
               finding=finding,
               message=f"get_kde_scatter({kde}, {p['xscale']}/{p['yscale']}): {problem}")
+    rec["finding"], rec["reference"] = finding, want
     ctx.count(f"reference_compared[scatter:{kde}:{p['xscale']}/{p['yscale']}:"
               f"{'events' if pos is None else 'positions'}]")
     if _S.case_info is not None:
@@ -646,7 +647,7 @@ def _same(a, b):
         return a == b
 
 
-def _relate(ctx, mon, r0, r1, what, same=_same, map0=None, wit=None):
+def _relate(ctx, mon, r0, r1, what, same=_same, map0=None, wit=None, finding=None):
     """Metamorphic oracle on two records: same outcome (both raise the same exception type
     or equal results)."""
     e0, e1 = r0["exc"], r1["exc"]
@@ -665,6 +666,7 @@ def _relate(ctx, mon, r0, r1, what, same=_same, map0=None, wit=None):
     ok = same(a, b)
     ctx.check(mon, ok, lambda: _wit(dict(wit or {}, params=_short(r0["params"]),
                                          on_filtered_dataset=a, on_other=b)),
+              finding=None if ok else finding,
               message=f"{r0['fn']}: the result on the filtered dataset differs from the result "
                       f"on the {what}")
     return ok
@@ -681,8 +683,14 @@ def _run3(ctx, env, mon, call, same_twin=_same, twin_call=None, poison_call=None
     r2 = None
     if env.poison is not None:
         r2 = _observe(ctx, env.poison, "poison", poison_call or call, False)
+        fnd = None
+        if r0.get("finding") == K.M_UNSIGNED_WRAP and r2["exc"] is None and \
+                K.close_density(r2["result"], r0["reference"]) is None:
+            # the poisoned copy holds floats (nan cannot be written into unsigned integers):
+            # it is not affected by the unsigned wrap-around and equals the reference
+            fnd = K.M_UNSIGNED_WRAP
         _relate(ctx, mon + ".poison", r0, r2, "dataset with overwritten excluded events",
-                map0=map0, wit=wit)
+                map0=map0, wit=wit, finding=fnd)
     return r0, r1, r2
 
 
@@ -911,12 +919,12 @@ def run_rand(ctx):
     for idx in ctx.case_ids():
         rng = ctx.rng(idx, salt=1)
         n = G.gen_n(rng, big=thorough or idx % 24 == 0)
-        feats, cols, shapes = G.gen_columns(rng, n)
+        feats, cols, shapes = G.gen_columns(rng, n, fl_pair=idx % 48 == 7)
         recipe = G.gen_recipe(rng, feats, cols, n)
         flow = float(rng.choice([0.04, 0.16, 0.32])) if rng.random() < 0.7 else None
         # (.rtdc files store the fluorescence maxima as unsigned integers)
         fmt = "hdf5" if rng.random() < (0.5 if feats[:2] == ["fl1_max", "fl2_max"] else 0.12) \
-            else "dict"
+            or idx % 48 == 7 else "dict"
         _S.case_info = {"case": idx, "n": n, "features": feats, "shapes": shapes, "format": fmt,
                         "filter": {k: v for k, v in recipe.items() if k != "manual"}}
         env = None
@@ -945,6 +953,12 @@ def run_rand(ctx):
             big = nsel > 1500
             for _ in range(1 if big else 2):
                 op_scatter(ctx, env, rng, G)
+            if idx % 48 == 7 and not big:
+                # the fluorescence pair as it is stored in the file, events as positions
+                op_scatter(ctx, env, rng, G,
+                           fixed=("fl1_max", "fl2_max", "linear", "linear",
+                                  ("multivariate", "gauss", "histogram")[(idx // 48) % 3],
+                                  None, "events", None))
             for _ in range(1 + int(not big and rng.random() < 0.4)):
                 op_contour(ctx, env, rng, G)
             for _ in range(1 + int(rng.random() < 0.5)):
